@@ -925,6 +925,7 @@ class Request:
     content = None
     _forceSSL = 0
     _disconnected = False
+    _connectionLostReason = None
     _log = Logger()
 
     def __init__(self, channel: HTTPChannel, queued: object = _QUEUED_SENTINEL) -> None:
@@ -1207,8 +1208,16 @@ class Request:
             successfully or with an error if the request is interrupted by an
             error (for example, the client closing the connection prematurely).
         """
-        self.notifications.append(Deferred())
-        return self.notifications[-1]
+        d: Deferred[None] = Deferred()
+        if self._disconnected:
+            # Too late to wait for it: the connection is already gone.
+            d.errback(self._connectionLostReason)
+        elif self.finished:
+            # Too late to wait for it: the response is already finished.
+            d.callback(None)
+        else:
+            self.notifications.append(d)
+        return d
 
     def finish(self):
         """
@@ -1716,6 +1725,7 @@ class Request:
         Clean up anything which can't be useful anymore.
         """
         self._disconnected = True
+        self._connectionLostReason = reason
         self.channel = None
         if self.content is not None:
             self.content.close()
